@@ -29,7 +29,7 @@ pub static DEF: PropDef = PropDef {
         "while some task is between take_hook and set_hook the process hook is std's default by construction: no sentinel / message-content expectation is attached to panics fired in that window",
         "PANIC_CATCHER_HOOK_SET is reset between runs through the guarded test-only hook",
     ],
-    required_probes: &["c19.panic_caught", "c19.panic_escaped", "c19.nested_noncatching_outer", "c19.install", "c19.query", "c19.epilogue", "c19.install_lock_contended", "c19.transparent", "c19.static_payload", "c19.nonstring_payload"],
+    required_probes: &["c19.panic_caught", "c19.panic_escaped", "c19.nested_noncatching_outer", "c19.install", "c19.query", "c19.epilogue", "c19.install_lock_contended", "c19.transparent", "c19.static_payload", "c19.nonstring_payload", "c19.preempted_inside_previous_hook"],
     extra: None,
 };
 
@@ -151,7 +151,8 @@ fn gen_ops(budget: &mut usize, depth: usize) -> Vec<Op> {
             break;
         }
         *budget -= 1;
-        let k = choose_w(&[4, 3, 1, 2, 1, 2, if depth < 4 { 5 } else { 0 }], "prog.op");
+        // inside a frame panics and enable/disable flips are what matters; at top level, frames
+        let k = if depth == 0 { choose_w(&[4, 2, 1, 2, 1, 2, 9], "prog.op") } else { choose_w(&[3, 5, 3, 1, 1, 2, if depth < 4 { 6 } else { 0 }], "prog.op") };
         match k {
             0 => out.push(Op::Enable),
             1 => {
@@ -487,7 +488,17 @@ fn run(ctx: &RunCtx) -> Result<(), Violation> {
             "<unknown>".to_string()
         };
         let t = kernel::current_task();
-        g(|s| s.sentinel.push((t, msg)));
+        let may_yield = g(|s| {
+            s.sentinel.push((t, msg));
+            // Pre-empting a task *inside the previously installed hook* is only safe while nobody can be about to
+            // call take_hook/set_hook (they need the write side of std's hook lock, which this thread holds for
+            // reading): i.e. once the catcher's hook is installed and no installation is in flight.
+            s.installed && s.in_transit.is_empty() && s.in_set_hook.is_empty()
+        });
+        if may_yield && t.is_some() {
+            kernel::count("c19.preempted_inside_previous_hook");
+            kernel::point("sentinel.hook");
+        }
     }));
     ACTIVE.store(true, Ordering::SeqCst);
 
